@@ -132,7 +132,8 @@ func checkTables(c *mon.Ctx, stage string, idx int64, r *rand.Rand, kind refts.T
 	// (b) generic header through the hook
 	var psi *astits.PSIData
 	var perr error
-	if p, v, st := mon.Guarded(func() { psi, perr = astits.VerifParsePSIData(u.Payload) }); p {
+	in := append([]byte{}, u.Payload...) // a buffer of its own, overwritten below
+	if p, v, st := mon.Guarded(func() { psi, perr = astits.VerifParsePSIData(in) }); p {
 		c.Violate("C13/header/panic", stage, idx, fmt.Sprintf("%v\n%s", v, st), data)
 	} else if perr != nil {
 		c.Violate("C13/header/error:"+kind.String(), stage, idx, perr.Error(), data)
@@ -150,6 +151,18 @@ func checkTables(c *mon.Ctx, stage string, idx int64, r *rand.Rand, kind refts.T
 			}
 			c.Count("generic_headers_compared")
 		}
+		// the parsed sections must be values of their own: the Demuxer parses every unit from a pooled buffer that the next unit
+		// overwrites, so nothing delivered may still point into the bytes it was parsed from
+		for k := range in {
+			in[k] ^= 0xA5
+		}
+		for j, want := range u.Sections {
+			if d := mon.Diff(psi.Sections[j], want, &mon.EqOpt{Ignore: map[string]bool{"PSISectionHeader.TableType": true}}); d != "" {
+				c.Violate("C13/decode/value-aliases-parse-buffer:"+kind.String()+":"+fieldOf(d), stage, idx, fmt.Sprintf("section %d, after the parse buffer was overwritten: %s", j, d), data)
+				break
+			}
+		}
+		c.Count("sections_rechecked_after_buffer_overwrite")
 	}
 	// (c) write PAT / PMT
 	if kind == refts.KindPMT {
